@@ -15,15 +15,18 @@ pub mod c09;
 pub mod c10;
 pub mod c11;
 pub mod c12;
+pub mod c13;
+pub mod c14;
 pub mod c15;
 pub mod c16;
+pub mod c17;
 pub mod c18;
 pub mod c19;
 pub mod c20;
 
 use crate::framework::Run;
 
-pub const ALL: [&str; 16] = ["C01", "C02", "C03", "C04", "C06", "C07", "C08", "C09", "C10", "C11", "C12", "C15", "C16", "C18", "C19", "C20"];
+pub const ALL: [&str; 19] = ["C01", "C02", "C03", "C04", "C06", "C07", "C08", "C09", "C10", "C11", "C12", "C13", "C14", "C15", "C16", "C17", "C18", "C19", "C20"];
 
 pub fn dispatch(id: &str, run: &mut Run) -> Option<&'static str> {
     match id {
@@ -38,8 +41,11 @@ pub fn dispatch(id: &str, run: &mut Run) -> Option<&'static str> {
         "C10" => Some(c10::run(run)),
         "C11" => Some(c11::run(run)),
         "C12" => Some(c12::run(run)),
+        "C13" => Some(c13::run(run)),
+        "C14" => Some(c14::run(run)),
         "C15" => Some(c15::run(run)),
         "C16" => Some(c16::run(run)),
+        "C17" => Some(c17::run(run)),
         "C18" => Some(c18::run(run)),
         "C19" => Some(c19::run(run)),
         "C20" => Some(c20::run(run)),
